@@ -248,7 +248,8 @@ pub fn random_spec(rng: &mut Rng, p: &Profile) -> CaseSpec {
     // large instances: keep the search tractable (an admissible bound, widths >= 3)
     let (variant, width) = if large {
         let mut v = variant;
-        if v.rub == RubKind::None { v.rub = RubKind::Exact; }
+        // a loose admissible bound: long searches (hundreds / thousands of sub-problems, fringes of hundreds of nodes)
+        v.rub = RubKind::Slack(rng.next() % 1000);
         (v, match width { WidthKind::Fixed(w) if w < 3 => WidthKind::Fixed(w + 3), WidthKind::Times(_, _) | WidthKind::DivBy(_, _) => WidthKind::Fixed(6), w => w })
     } else { (variant, width) };
     let cfg = Cfg::seq(dd, rng.chance(1, 2), if rng.chance(1, 2) { FringeKind::Simple } else { FringeKind::NoDup }, width);
